@@ -1,12 +1,14 @@
 (* Property C18 — value text formats round-trip and the JSON writer emits valid JSON.
-   Proved so far: facts about the class tables (regenerated from parser.go on every run) and the string
-   writer that the round trip rests on, and computed instances of the round trip through the model's
-   writer, reader and the RFC 8259 reference reader.  The unbounded statement for whole values is
-   carried by byte-for-byte correspondence plus the read-back oracle in this commit (DESIGN.md 7, C18:
+   Proved: the JSON half for whole values (C18_json_value_valid: every value of the property's domain,
+   any nesting, any indent setting, is accepted by the RFC 8259 reference reader and decodes to the
+   same structure); facts about the class tables (regenerated from parser.go on every run) and the
+   string writer that the SDL round trip rests on; the string constant round trip through ggql's own
+   reader; computed instances of the whole SDL round trip.  The unbounded SDL round trip for whole
+   values is carried by byte-for-byte correspondence plus the read-back oracle (DESIGN.md 7, C18:
    partial). *)
 From Coq Require Import List Arith ZArith Bool Lia.
 Import ListNotations.
-From GG Require Import Text Json Text_proofs Sdl Sdl_proofs Json_proofs.
+From GG Require Import Text Json Text_proofs Sdl Sdl_proofs Json_proofs Json_value.
 
 (* names (symbols, variable names, unquoted keys) are exactly the non-empty words over [A-Za-z0-9_];
    number tokens are words over [0-9+-.eE]; the string delimiters and NUL are in no class; comma is
@@ -54,6 +56,37 @@ Theorem C18_json_string_value_valid :
 Proof. exact json_written_string_value_valid. Qed.
 Print Assumptions C18_json_string_value_valid.
 
+(* The JSON form of every value - null, booleans, numbers, strings of any content, enum symbols,
+   variables, times, lists and string-keyed objects in any nesting, empty containers included - at
+   every indent setting (< 0, = 0, > 0) is text the reference reader accepts, and it decodes to the
+   same structure (symbols and variables as strings, object members in the order written).
+   wf_wv: the runes of every string and key come with their UTF-8 bytes (what Go's range and
+   EncodeRune yield; invalid bytes arrive as U+FFFD); number tokens are JSON numbers (what strconv
+   prints for integers and finite floats - NaN and infinities are refused by coercion, C05); the text
+   of a time or of a foreign value holds no quote, backslash or control character. *)
+Theorem C18_json_value_valid :
+  forall indent v, wf_wv v -> json_parse (write_value false indent v 0) = Some (to_json v).
+Proof. exact json_written_value_valid. Qed.
+Print Assumptions C18_json_value_valid.
+
+(* ... and anywhere inside other text: the reader stops right behind the value *)
+Theorem C18_json_value_in_context :
+  forall indent v, wf_wv v -> forall d k fuel, size v <= fuel -> follow_ok k ->
+    json_value fuel (write_value false indent v d ++ k) = Some (to_json v, trailer indent d v ++ k).
+Proof. intros indent v. exact (all_written indent v). Qed.
+Print Assumptions C18_json_value_in_context.
+
+(* "is a JSON number" is a property of the token alone, decided by running the reference reader on it *)
+Theorem C18_number_tokens : forall t, json_num_token t = true -> num_ok t.
+Proof. exact json_num_token_ok. Qed.
+Print Assumptions C18_number_tokens.
+
+Example C18_number_token_instances :
+  (* 0, -12, 1.5, 1e+06, 1.5e-07, -0.5 as strconv prints them; NaN, +Inf, 01, 1. and 2e+06.0 are no numbers *)
+  (forallb json_num_token [[48]; [45; 49; 50]; [49; 46; 53]; [49; 101; 43; 48; 54]; [49; 46; 53; 101; 45; 48; 55]; [45; 48; 46; 53]] = true) /\
+  (existsb json_num_token [[78; 97; 78]; [43; 73; 110; 102]; [48; 49]; [49; 46]; [50; 101; 43; 48; 54; 46; 48]] = false).
+Proof. split; vm_compute; reflexivity. Qed.
+
 (* The same constant is read back rune for rune by ggql's own reader (proved for C15). *)
 Theorem C18_string_constant_round_trip :
   forall r rs s k,
@@ -78,3 +111,15 @@ Example C18_roundtrip_instance :
   json_parse (write_value false (-1) ex_value 0) = Some (to_json ex_value) /\
   json_parse (write_value false 0 ex_value 0) = Some (to_json ex_value).
 Proof. split; [eexists; vm_compute; reflexivity|]. repeat split; vm_compute; reflexivity. Qed.
+
+(* the premises of C18_json_value_valid hold of that value *)
+Example C18_instance_well_formed : wf_wv ex_value.
+Proof.
+  assert (H1 : wf_rune (rn 97) /\ wf_rune (rn 98) /\ wf_rune (rn 32) /\ wf_rune (rn 34) /\ wf_rune (rn 92) /\
+               wf_rune (rn 10) /\ wf_rune (rn 1) /\ wf_rune (rn 69) /\ wf_rune (rn 118) /\ wf_rune (mkWR 233 [195; 169])).
+  { unfold wf_rune, rn. cbn [wr_rune wr_utf8]. repeat split; intros; try lia; repeat constructor; lia. }
+  destruct H1 as (A & B & C & D & E & F & G & H & I & J).
+  cbn [ex_value wf_wv fst snd]. repeat split; auto; try (repeat constructor; assumption).
+  - apply json_num_token_ok. vm_compute. reflexivity.
+  - repeat (constructor; [assumption|]). constructor.
+Qed.
